@@ -42,8 +42,11 @@ Record(chks) ==
 OccOf(p, i) == {SqName[s] : s \in {t \in Squares : p.bd[t] = i}}
 \* (inside an action TLC re-evaluates a LET definition at every reference but an operator argument only once:
 \*  rendered FEN and hashes are therefore computed once and passed down as arguments)
+\* ply number of the game as the engine's repetition history indexes it (beyond the listed properties: X-plyclock)
+PlyClock(p) == (2 * (p.fmn - 1) + (IF p.stm = "b" THEN 1 ELSE 0)) % 65536
 SnapChecksX(p, snap, prop, fen, h, ph) ==
   << <<snap.fen = fen, prop, "fen", fen>>,
+     <<p.fmn < 1 \/ p.fmn > 1000000000 \/ snap.ply = PlyClock(p), "X-plyclock", "ply_clock", ToString(PlyClock(p))>>,
      <<\A i \in 1 .. 12 : ToS(snap.occ[i]) = OccOf(p, i), prop, "occupancy words", fen>>,
      <<snap.h = h, "C06", "hash differs from XOR of the keys of " \o prop \o " position", ToString(h)>>,
      <<snap.ph = ph, "C06", "pawn hash differs from XOR of the pawn keys", ToString(ph)>> >>
@@ -96,8 +99,16 @@ Gen ==
         /\ oh' = <<Ev.snap.h, Ev.snap.ph>>
         /\ UNCHANGED stack
 
+KindChar == <<"p", "n", "b", "r", "q", "k">>
+\* the move record's public description (beyond the listed properties: X-move)
+MoveDesc(m) ==
+  LET cap == IF m.kind = "ep" THEN 1 ELSE KindOf(pos.bd[m.to])
+  IN [moved |-> KindChar[KindOf(pos.bd[m.from])], captured |-> IF cap = 0 THEN "-" ELSE KindChar[cap],
+      promo |-> IF m.promo = 0 THEN "-" ELSE KindChar[m.promo], from |-> SqName[m.from], to |-> SqName[m.to],
+      castle |-> m.kind = "castle", ep |-> m.kind = "ep", attack |-> cap # 0, reset |-> cap # 0 \/ KindOf(pos.bd[m.from]) = 1]
 MakeJudge(cand, known, np, rp) ==
   /\ Record(
+       (IF cand # {} THEN << <<Ev.mv = MoveDesc(CHOOSE x \in cand : TRUE), "X-move", "move record " \o ToString(Ev.mv), ToString(MoveDesc(CHOOSE x \in cand : TRUE))>> >> ELSE <<>>) \o
        (IF known THEN SnapChecks(np, Ev.snap, "C02") ELSE <<>>) \o
        << <<Ev.valid = IsValid(rp), "C05", "is_valid after make", ToString(IsValid(rp))>>,
           <<Ev.valid = (cand # {}) \/ ~known, "C01", "move passes the validity filter iff legal", ToString(cand # {})>>,
